@@ -153,14 +153,16 @@ Print Assumptions C18_history_converges_scanner.
 
 (* Every event concerns the probed address and is justified by the observation of that poll:
    Discovered/Found/Requery by a valid reply (with the reported state / ident and master),
-   Lost by a time-out. *)
+   Lost by a time-out.  (The live list's oracle is lenient - second argument true - in one
+   point the property leaves open: it would also accept a Discovered for an answer that is not
+   a response telegram, O1; the model, like the code, emits none.) *)
 Theorem C18_events_match : forall ts s h s' tr, addr_ok ts -> ll_rep s -> ll_run ts s h = Ok (s', tr) ->
-  evs_matchb resp_state_eqb (map ll_abs tr) = true.
+  evs_matchb resp_state_eqb true (map ll_abs tr) = true.
 Proof. exact ll_evs_match_thm. Qed.
 Print Assumptions C18_events_match.
 
 Theorem C18_events_match_scanner : forall ts s h s' tr, addr_ok ts -> sc_rep s -> sc_run ts s h = Ok (s', tr) ->
-  evs_matchb sc_pay_eqb (map sc_abs tr) = true.
+  evs_matchb sc_pay_eqb false (map sc_abs tr) = true.
 Proof. exact sc_evs_match_thm. Qed.
 Print Assumptions C18_events_match_scanner.
 
@@ -187,8 +189,9 @@ Proof. exact ll_alt_thm. Qed.
 Print Assumptions C18_alternate_transcript.
 
 (* Without the hypothesis exactly one deviation exists (O1): an answer that is not a response
-   telegram marks an unknown address without an event.  alt_walk true has that built in and
-   holds for every history. *)
+   telegram marks an unknown address without an event.  alt_walk true has that built in (it
+   accepts such a mark without an event, or announced by a Discovered) and holds for every
+   history. *)
 Theorem C18_alternate_o1 : forall ts s h s' tr, addr_ok ts -> ll_rep s -> ll_run ts s h = Ok (s', tr) ->
   alt_walk true (ll_stations s) (map ll_abs tr) = Some (ll_stations s').
 Proof. exact ll_alt_o1_thm. Qed.
@@ -235,16 +238,16 @@ Print Assumptions C18_scan_stale_observation.
    history from the initial state: an oracle failure can only come from the implementation. *)
 Theorem C18_oracle_sound : forall ts h s' tr, addr_ok ts -> ll_run ts ll_new h = Ok (s', tr) ->
   cursor_walk 0 false (map ll_abs tr) = true /\
-  evs_matchb resp_state_eqb (map ll_abs tr) = true /\
+  evs_matchb resp_state_eqb true (map ll_abs tr) = true /\
   alt_walk true 0 (map ll_abs tr) = Some (ll_stations s') /\
-  (no_other (map ll_abs tr) = true -> alt_walk false 0 (map ll_abs tr) = Some (ll_stations s')) /\
+  (no_silent 0 (map ll_abs tr) = true -> alt_walk false 0 (map ll_abs tr) = Some (ll_stations s')) /\
   forall n fuel, snd (converge_scan resp_state_eqb false n fuel [] (map ll_abs tr) (O, O)) = O.
 Proof. exact ll_oracle_sound. Qed.
 Print Assumptions C18_oracle_sound.
 
 Theorem C18_oracle_sound_scanner : forall ts h s' tr, addr_ok ts -> sc_run ts sc_new h = Ok (s', tr) ->
   cursor_walk 0 false (map sc_abs tr) = true /\
-  evs_matchb sc_pay_eqb (map sc_abs tr) = true /\
+  evs_matchb sc_pay_eqb false (map sc_abs tr) = true /\
   alt_walk false 0 (map sc_abs tr) = Some (sc_stations s') /\
   forall n fuel, snd (converge_scan sc_pay_eqb true n fuel [] (map sc_abs tr) (O, O)) = O.
 Proof. exact sc_oracle_sound. Qed.
